@@ -481,6 +481,7 @@ type pWorld struct {
 	nextRid               int
 	held                  map[string]map[string][]int // pod -> eni -> ips (from replies)
 	heldBy                map[string]string           // "eni:ip" -> pod
+	lastRel               map[string]map[string][]int // pod -> the last release request made for it (eni -> ips)
 	everUsed              map[int]bool
 	goneWhy               map[string]string  // "eni:ip" -> remote | unassigned
 	goneSeen              map[string]bool    // a sync has applied a cloud listing without it since
